@@ -5,6 +5,7 @@ PROP = 'C11'
 QUICK = (192, 120, 60.0)
 THOROUGH = (1200, 200, 840.0)
 boot, execute = ig.boot, ig.execute
+shrink_plan = ig.shrink_plan
 SHRINK_LISTS, SHRINK_DICTS = ig.SHRINK_LISTS, ig.SHRINK_DICTS
 
 
